@@ -30,6 +30,9 @@ pub struct Cfg {
     /// service B obtains `batch` call futures first (in request order) and then awaits them in
     /// that order: call order and first-poll order still agree with service A's sequential order
     batch: usize,
+    /// the futures of a batch are awaited last-first: the decisions still belong to the requests in
+    /// the order in which they were made (the order of `call`)
+    reverse_await: bool,
     n: usize,
     inner_fail: Vec<bool>,
     /// the user's error function panics for this request index (only reached when the seed picks
@@ -54,6 +57,7 @@ pub fn gen(rng: &mut Prng) -> Cfg {
         seed_last: rng.chance(0.4),
         seed_mid: rng.chance(0.3),
         batch: if rng.chance(0.4) { rng.range(2, 4) as usize } else { 1 },
+        reverse_await: rng.chance(0.3),
         n,
         inner_fail: (0..n).map(|_| rng.chance(0.2)).collect(),
         bad: if !no_error_fn && rng.chance(0.15) { Some(rng.below(n as u64 / 2) as usize) } else { None },
@@ -139,6 +143,9 @@ pub fn run(cfg: &Cfg, seed: u64) -> Arc<World> {
                                 let _ = std::future::poll_fn(|cx| tower::Service::poll_ready(&mut b, cx)).await;
                                 futs.push((id, tower::Service::call(&mut b, req)));
                                 w2.log(Ev::Issued { req: id });
+                            }
+                            if cfgc.reverse_await {
+                                futs.reverse();
                             }
                             for (id, f) in futs {
                                 w2.log(Ev::FirstPoll { req: id });
